@@ -916,7 +916,7 @@ impl ASN1Value {
                 ASN1Type::ElsewhereDeclaredType(e),
                 ASN1Value::LinkedNestedValue { supertypes, value },
             ) => {
-                if supertypes.contains(&e.identifier) {
+                if e.is_cyclic(tlds) {
                     return Err(grammar_error!(
                         LinkerError,
                         "Failed to link value: type reference '{}' is cyclic",
@@ -1429,6 +1429,13 @@ impl ASN1Value {
                 ty: ASN1Type::ElsewhereDeclaredType(elsewhere),
                 ..
             })) => {
+                if elsewhere.is_cyclic(tlds) {
+                    return Err(grammar_error!(
+                        LinkerError,
+                        "Failed to link value: type reference '{}' is cyclic",
+                        elsewhere.identifier
+                    ));
+                }
                 supertypes.push(elsewhere.identifier.clone());
                 Self::link_enum_or_distinguished(tlds, elsewhere, identifier, supertypes)
             }
